@@ -1,12 +1,12 @@
 """C06 (partial) — a failing input leaves the session unchanged: definitions followed by a failing expression statement in one input."""
 LEVEL = 'model_checking'
 LIMITS = {'max_unsupported': 0, 'max_undecided_frac': 0.01}
-OUTSIDE = ['failing inputs that import modules (the `use` defect named in the property text needs module files and the resolver; it is NOT reached here)',
+OUTSIDE = ['unknown modules and importers whose answer changes over time (the builtin importer of the real standard library is used)',
            'failing statements other than a final expression statement (a failing definition in the middle of an input), name clashes, inputs longer than the stated bounds',
            'parse errors: of all token sequences sharing a rejected prefix one representative (a solver witness) is carried through the pipeline — the parser never looks at the remaining tokens',
            '"every later input": decided for the listed probes and for re-submitting the successful part of the input, compared with a twin session that never saw the failure']
 ASSUMPTIONS = ['the failing statement\'s token kinds are symbolic over the 37-kind expression alphabet of C10; Identifier tokens are the name q that the same input defines just before, Number tokens the literal 2',
-               'six concrete families of successful definitions precede it in the same input (a variable; a redefined function; a derived unit; a new dimension with a unit; a shadowed variable; a struct)']
+               'eight concrete families of successful statements precede it in the same input (a variable; a redefined function; a derived unit; a new dimension with a unit; a shadowed variable; a struct; expression statements only, probing the last result ans / _; a module import from the real standard library, probing that the module can be imported again with the same effect)']
 
 PRELUDE = 'dimension Scalar = 1\ndimension Length\nunit meter: Length\nlet x = 3\nfn h(a: Scalar) -> Scalar = a + 1\n'
 # (id, statements preceding the failing one, probes)
@@ -17,6 +17,11 @@ FAMILIES = [
     ('dim', 'dimension Mass\nunit gram: Mass\nlet q = 2 gram', 'q; 2 gram; x'),
     ('shadow', 'let x = 5\nlet q = x', 'x; q; h(x)'),
     ('struct', 'struct P { a: Scalar }\nlet q = P { a: 2 }.a', 'P { a: 1 }.a; q; x'),
+    # expression statements only (no definition) before the failing one; the last result `ans` / `_` is probed first and the
+    # probe list ends with the value `ans` had before, so that the list can be evaluated repeatedly with the same outcome
+    ('ans', '100\n"text"\nx + 1', 'ans; _ + 1; x; 5', PRELUDE + '5\n', 'x'),
+    # a module import before the failing statement: the module must be importable again afterwards, with the same effect
+    ('use', 'use core::dimensions\nlet q = 7', 'q; x; fn p(l: Length) = l', 'use core::scalar\nlet x = 3\nfn h(a: Scalar) -> Scalar = a + 1\n', 'q'),
 ]
 
 def bounds(tier):
@@ -31,8 +36,9 @@ def plan(tier, rnd, units):
     K = c10.K; x = str(c10.ID); n2 = str(c10.NUM)
     LP, RP, MINUS, BANG, DIV = str(c10.LP), str(c10.RP), str(c10.MINUS), str(c10.BANG), str(c10.DIV)
     cases = []
-    for fam, prefix, probes in FAMILIES:
-        base = {1: PRELUDE, 2: prefix, 3: probes, 4: 'q'}
+    for f in FAMILIES:
+        fam, prefix, probes = f[:3]
+        base = {1: f[3] if len(f) > 3 else PRELUDE, 2: prefix, 3: probes, 4: f[4] if len(f) > 4 else 'q'}
         n = (2 if tier == 'quick' else 4) if fam == 'var' else (1 if tier == 'quick' else 3)
         for L in range(1, n + 1):
             for first in range(K):
@@ -49,7 +55,7 @@ def plan(tier, rnd, units):
         OPK = [4, 5, 6, 7, 8, 9, 10, 11, 12, 13, 14, 15, 16, 17, 18, 19, 20, 21, 22, 23, 24, 25, 27]
         for i, t in enumerate(T):
             j = t.index('o')
-            for opk in OPK:
+            for opk in ([4, 7, 10, 15] if (tier == 'quick' and fam == 'use') else OPK):
                 tt = list(t); tt[j] = str(opk)
                 cases.append({'id': '%s-tmpl%d-op%d' % (fam, i, opk), 'label': 'family %s: template %s' % (fam, ' '.join(tt)), 'cfg': {**{0: ' '.join(tt)}, **base}})
     return [{'entry': 'h_c06_rollback', 'cases': cases, 'opts': {'mode': 'replay', 'max_paths': 200000, 'instr_budget': 800_000_000},
